@@ -8,5 +8,18 @@ namespace F1.Props.FactsC15
 
 theorem fact_file_runStage : F1.Generated.skel_file_runStage = F1.Expected.skel_file_runStage := by rfl
 theorem fact_file_newStagesWorker : F1.Generated.skel_file_newStagesWorker = F1.Expected.skel_file_newStagesWorker := by rfl
+theorem fact_file_ParseConfigFile : F1.Generated.skel_file_ParseConfigFile = F1.Expected.skel_file_ParseConfigFile := by rfl
+theorem fact_file_parseStage : F1.Generated.skel_file_parseStage = F1.Expected.skel_file_parseStage := by rfl
+theorem fact_file_validateCommonFields : F1.Generated.skel_file_validateCommonFields = F1.Expected.skel_file_validateCommonFields := by rfl
+theorem fact_file_validateCommonFieldsOfStage : F1.Generated.skel_file_validateCommonFieldsOfStage = F1.Expected.skel_file_validateCommonFieldsOfStage := by rfl
+theorem fact_file_validateConstantStage : F1.Generated.skel_file_validateConstantStage = F1.Expected.skel_file_validateConstantStage := by rfl
+theorem fact_file_validateRampStage : F1.Generated.skel_file_validateRampStage = F1.Expected.skel_file_validateRampStage := by rfl
+theorem fact_file_validateStagedStage : F1.Generated.skel_file_validateStagedStage = F1.Expected.skel_file_validateStagedStage := by rfl
+theorem fact_file_validateGaussianStage : F1.Generated.skel_file_validateGaussianStage = F1.Expected.skel_file_validateGaussianStage := by rfl
+theorem fact_file_validateUsersStage : F1.Generated.skel_file_validateUsersStage = F1.Expected.skel_file_validateUsersStage := by rfl
+theorem fact_file_Builder : F1.Generated.skel_file_Builder = F1.Expected.skel_file_Builder := by rfl
+theorem fact_file_setEnvs : F1.Generated.skel_file_setEnvs = F1.Expected.skel_file_setEnvs := by rfl
+theorem fact_file_unsetEnvs : F1.Generated.skel_file_unsetEnvs = F1.Expected.skel_file_unsetEnvs := by rfl
+theorem fact_runcmd_Execute : F1.Generated.skel_runcmd_Execute = F1.Expected.skel_runcmd_Execute := by rfl
 
 end F1.Props.FactsC15
